@@ -20,6 +20,7 @@ import (
 	"sort"
 	"strings"
 	"sync"
+	"sync/atomic"
 	"time"
 
 	"github.com/logrange/logrange/api"
@@ -36,6 +37,11 @@ var (
 )
 
 const callTimeout = 15 * time.Second
+
+// a call that hangs leaves a spinning goroutine behind: after three of them the remaining cases are skipped
+var hangs int32
+
+func tooManyHangs() bool { return atomic.LoadInt32(&hangs) >= 3 }
 
 type write struct {
 	Part int      `json:"p"`
@@ -221,6 +227,9 @@ func ks(n int) []int {
 
 // runOffsetAPI checks the offset laws through Query on one history.
 func runOffsetAPI(srv *lrsrv.Srv, h hist, sec *vh.Section, only *probe, verbose bool) {
+	if tooManyHangs() {
+		return
+	}
 	w := setup(srv, h)
 	if w == nil {
 		return
@@ -286,7 +295,11 @@ func runOffsetAPI(srv *lrsrv.Srv, h hist, sec *vh.Section, only *probe, verbose 
 		starts = append(starts, i)
 	}
 	sort.Ints(starts)
+	aborted := false
 	run := func(pr probe) {
+		if aborted || tooManyHangs() {
+			return
+		}
 		i, k := pr.Start, pr.K
 		res.Dist(sec, fmt.Sprintf("start=%s k=%s", startName(i, n), kName(k, n)))
 		key := ""
@@ -298,6 +311,8 @@ func runOffsetAPI(srv *lrsrv.Srv, h hist, sec *vh.Section, only *probe, verbose 
 		case "read":
 			got, _, err, hung := qr.query(api.QueryRequest{Query: q, Pos: posAfter[i], Offset: k, Limit: 10000})
 			if hung {
+				atomic.AddInt32(&hangs, 1)
+				aborted = true
 				fail("hang", "a query with an offset did not return", pr, "no answer in 15 s", "a page")
 				return
 			}
@@ -606,6 +621,9 @@ func genHistTies(rng *vh.Rng, chunkSize int) hist {
 }
 
 func runCurCase(srv *lrsrv.Srv, drv *vh.Driver, c curCase, sec *vh.Section, verbose bool) {
+	if tooManyHangs() {
+		return
+	}
 	h := c.Hist
 	w := setup(srv, h)
 	if w == nil {
@@ -715,6 +733,7 @@ func runCurCase(srv *lrsrv.Srv, drv *vh.Driver, c curCase, sec *vh.Section, verb
 			}
 		})
 		if hung {
+			atomic.AddInt32(&hangs, 1)
 			res.SpecFail(vh.SpecFailure{Section: "cursor", Kind: "hang", Input: c, Impl: "no answer in 15 s: " + o.Op, Spec: "returns", What: "a cursor call did not return"})
 			return
 		}
@@ -785,6 +804,9 @@ type incCase struct {
 }
 
 func runIncCase(srv *lrsrv.Srv, drv *vh.Driver, c incCase, sec *vh.Section, verbose bool) {
+	if tooManyHangs() {
+		return
+	}
 	h := c.Hist
 	w := setup(srv, h)
 	if w == nil {
